@@ -104,7 +104,7 @@ pub fn long_payloads(tier: Tier, alpha: &[u8]) -> Vec<Vec<u8>> {
         lens.extend(65500..=65580);
     }
     for l in lens {
-        for f in [0usize, 3, 4] {
+        for f in 0..NFILL {
             v.push(filler(f, l));
             let mut p = filler(f, l - 2);
             p.extend_from_slice(&[0x00, 0x1b]);
@@ -463,7 +463,7 @@ fn c16_case(p: &[u8], n: usize, q: &[u8], f1: &[u8], out: &mut Vec<Viol>, counts
     }
     // the other front-ends with the same capacity must agree
     let want: Vec<Ev> = run.events.clone();
-    for t in run_frontends(kind, &stream, FeSet::Core).into_iter().skip(1) {
+    for t in run_frontends(kind, &stream, FeSet::All).into_iter().skip(1) {
         if t.normalized() != want {
             bad("C16 front-ends disagree under a too small / exact buffer", ctx(&format!("{} got {}", t.name, evs_short(&t.events))));
         }
